@@ -513,6 +513,40 @@ def single_def_locals(r):
     return locs, assigned
 
 
+
+def _cmp_orient(e):
+    """orient every parenthesised comparison `(A > B)` / `(A >= B)` as `(B < A)` / `(B <= A)` (the canonical expression strings of nmlint
+    parenthesise every binary operation), so that a mirrored spelling of the same comparison compares equal"""
+    out = []; i = 0
+    while i < len(e):
+        if e[i] != "(":
+            out.append(e[i]); i += 1; continue
+        d = 0; j = i
+        while j < len(e):
+            if e[j] == "(": d += 1
+            elif e[j] == ")":
+                d -= 1
+                if d == 0: break
+            j += 1
+        if j >= len(e):
+            out.append(e[i:]); break
+        inner = _cmp_orient(e[i + 1:j])
+        # a depth-0 ` > ` / ` >= ` in the inner text
+        d = 0; pos = None
+        for k in range(len(inner)):
+            c = inner[k]
+            if c in "([{<" and not (c == "<" and inner[k - 1:k + 2] in (" < ", " <=")): d += (c != "<")
+            elif c in ")]}": d -= 1
+            elif d == 0 and inner[k:k + 3] == " > ": pos = (k, 3, " < "); break
+            elif d == 0 and inner[k:k + 4] == " >= ": pos = (k, 4, " <= "); break
+        if pos and " ? " not in inner[:pos[0]]:
+            A, B = inner[:pos[0]], inner[pos[0] + pos[1]:]
+            # B must not continue into another depth-0 operator that binds looser (ternary): nmlint parenthesises, so B is one operand
+            if " ? " not in B:
+                inner = B + pos[2] + A
+        out.append("(" + inner + ")"); i = j + 1
+    return "".join(out)
+
 def rule_ufop(rows, prop):
     table = load_table("ufunc_table.json")["ops"]
     skip = load_table("ufunc_table.json")["not_covered"]
@@ -540,7 +574,7 @@ def rule_ufop(rows, prop):
         for e in rets:
             if "error::" in e:
                 continue
-            if e not in table[name]["cores"]:
+            if e not in table[name]["cores"] and _cmp_orient(e) not in [_cmp_orient(c) for c in table[name]["cores"]]:
                 findings.append(finding("R-UFOP", prop, r, e, "scalar operation of ufunc '%s' is %s, the oracle says %s" % (name, e, table[name]["cores"])))
         if len(samples) < 5 and rets:
             samples.append("R-UFOP %s: %s" % (name, rets[0]))
